@@ -5,7 +5,7 @@ name or None, op '=' | '?=', greedy bool).  Terminals are one-letter names decla
 """
 import random
 
-TERMS = {"a": "a", "b": "b", "c": "c", "comma": ",", "+": "+", "-": "-", "~": "~"}
+TERMS = {"a": "a", "b": "b", "c": "c", "comma": ",", "semi": ";", "+": "+", "-": "-", "~": "~"}
 # inline string terminals made of punctuation (the symbol's name is its text; helper rules are named "+_0", "-_opt", ...)
 INLINE = {"a": "+", "b": "-", "c": "~"}
 
@@ -35,6 +35,29 @@ def text(rules, used_terms=None):
     return out
 
 
+def rule_separator_variant(rules):
+    """the same rules with every separator being a RULE (Sepr: comma | semi) instead of a terminal; None when no separator is used"""
+    import copy
+
+    r = copy.deepcopy(rules)
+    used = [False]
+
+    def walk(alts):
+        for alt in alts:
+            for it in alt:
+                if it.get("kind") == "grp":
+                    walk(it["alts"])
+                if it.get("sep"):
+                    it["sep"] = "Sepr"
+                    used[0] = True
+    for _, alts in r:
+        walk(alts)
+    if not used[0]:
+        return None
+    plain = {"mult": "", "sep": None, "name": None, "op": "=", "greedy": False}
+    return r + [("Sepr", [[dict(plain, sym="comma")], [dict(plain, sym="semi")]])]
+
+
 def inline_variant(rules):
     """the same rules with the terminals a, b, c written as inline punctuation strings "+", "-", "~" """
     import copy
@@ -57,7 +80,7 @@ def _terms_of(alts):
     out = set()
     for alt in alts:
         for i in alt:
-            if i.get("sep"):
+            if i.get("sep") and i["sep"] in TERMS:
                 out.add(i["sep"])
             if i.get("kind") == "grp":
                 out |= _terms_of(i["alts"])
@@ -210,7 +233,10 @@ def derive(rules, rng, sym, depth, out, budget):
             n = rng.choice([1, 1, 2, 3])
         for k in range(n):
             if k and it.get("sep"):
-                out.append(TERMS[it["sep"]])
+                if it["sep"] in TERMS:
+                    out.append(TERMS[it["sep"]])
+                elif not derive(rules, rng, it["sep"], depth - 1, out, budget):      # the separator is a RULE
+                    return False
             if not derive(rules, rng, it if it.get("kind") == "grp" else it["sym"], depth - 1, out, budget):
                 return False
     return True
